@@ -99,14 +99,13 @@ Definition order_stat (l : list entry) : ostat :=
 
 (* ---- StatCollector::CalculateDiscounts: Chen & Goodman closed form, failing on the three conditions the code tests *)
 Definition in_range (d : Q) (j : Q) : bool := Qle_bool 0 d && Qle_bool d j.
+Definition mk_disc (d1 d2 d3 : Q) : option disc :=
+  if in_range d1 1 && in_range d2 2 && in_range d3 3 then Some (Qred d1, Qred d2, Qred d3) else None.
 Definition closed_form (s : ostat) : option disc :=
   let n1 := s_n1 s in let n2 := s_n2 s in let n3 := s_n3 s in let n4 := s_n4 s in
   if (n1 =? 0)%N || (n2 =? 0)%N || (n3 =? 0)%N then None else
   let y := QN n1 / (QN n1 + 2 * QN n2) in
-  let d1 := 1 - 2 * y * QN n2 / QN n1 in
-  let d2 := 2 - 3 * y * QN n3 / QN n2 in
-  let d3 := 3 - 4 * y * QN n4 / QN n3 in
-  if in_range d1 1 && in_range d2 2 && in_range d3 3 then Some (Qred d1, Qred d2, Qred d3) else None.
+  mk_disc (1 - 2 * y * QN n2 / QN n1) (2 - 3 * y * QN n3 / QN n2) (3 - 4 * y * QN n4 / QN n3).
 Definition order_discount (fallback : option disc) (s : ostat) : option disc :=
   match closed_form s with Some d => Some d | None => fallback end.
 Fixpoint all_discounts (fallback : option disc) (k : nat) (ss : list ostat) : list disc + nat :=
